@@ -13,6 +13,8 @@ pub struct Abs {
     pub buf_len: usize,
     pub unused_len: usize,
     pub cap: usize,
+    /// slot partition violated (the tree walk itself succeeded)
+    pub slots_err: Option<String>,
 }
 
 pub fn abs<T>(s: &VerifSnapshot<T>, ent: &dyn Fn(&T) -> (i64, i64, i64)) -> Result<Abs, String> {
@@ -67,28 +69,21 @@ pub fn abs<T>(s: &VerifSnapshot<T>, ent: &dyn Fn(&T) -> (i64, i64, i64)) -> Resu
     }
     go(s, ent, s.root, EMPTY_REF, 0, &mut seen, &mut tree, &mut inorder, &mut height)?;
     // partition: {0} + tree + unused == 0..n, no repetition
-    let mut free = vec![false; n];
-    for &u in &s.unused {
-        let u = u as usize;
-        if u >= n {
-            return Err(format!("free list holds slot {} outside the arena ({})", u, n));
+    let slots_err = (|| -> Option<String> {
+        let mut free = vec![false; n];
+        for &u in &s.unused {
+            let u = u as usize;
+            if u >= n { return Some(format!("free list holds slot {} outside the arena ({})", u, n)); }
+            if u == 0 { return Some("free list holds the sentinel slot 0".into()); }
+            if free[u] { return Some(format!("slot {} is on the free list twice", u)); }
+            if seen[u] { return Some(format!("slot {} is in the tree and on the free list", u)); }
+            free[u] = true;
         }
-        if u == 0 {
-            return Err("free list holds the sentinel slot 0".into());
+        for i in 1..n {
+            if !seen[i] && !free[i] { return Some(format!("slot {} is neither in the tree nor on the free list (lost)", i)); }
         }
-        if free[u] {
-            return Err(format!("slot {} is on the free list twice", u));
-        }
-        if seen[u] {
-            return Err(format!("slot {} is in the tree and on the free list", u));
-        }
-        free[u] = true;
-    }
-    for i in 1..n {
-        if !seen[i] && !free[i] {
-            return Err(format!("slot {} is neither in the tree nor on the free list (lost)", i));
-        }
-    }
+        None
+    })();
     let mut pool = format!("P {} {} {}", n, s.unused_capacity, s.unused.len());
     for &u in &s.unused {
         pool.push_str(&format!(" {}", u));
@@ -100,6 +95,7 @@ pub fn abs<T>(s: &VerifSnapshot<T>, ent: &dyn Fn(&T) -> (i64, i64, i64)) -> Resu
         buf_len: n,
         unused_len: s.unused.len(),
         cap: s.unused_capacity,
+        slots_err,
     })
 }
 
